@@ -71,6 +71,18 @@ CLAIMED = {
         note="Exact theorem; binary64 noise bounded by measurement (1e-11) with dt_max inside the scheme's CFL region (stated guard).",
         technique="Coq proof over R + vm_compute step correspondence + stationarity oracle",
         design="7/C17"),
+    "C05": dict(
+        text="Coq theorems for every save interval k >= 1, every answering update function, initial state and stop time: the loop "
+             "produces exactly run_frames N (N = first step whose time reaches the stop time); frames at 0,k,2k,... and N; a frame "
+             "labelled s holds the state after exactly s updates and the time accumulated by the first s steps; per-step records "
+             "concatenate to one record per step in order; refutation of the loop as found (stop test after the update). "
+             "Correspondence: the REAL Runner + DataHandler (HDF5) driven by a scripted update, exhaustively over k in 1..N+2, "
+             "N in 0..12, 4 step scripts, thermalisation, stop position, probe/screening columns (3190 histories), every frame and "
+             "buffer vs Model.Runner.run (exact); readers DynamicsData.from_hdf5 and Solution.times vs the model; real tdgl.solve runs.",
+        note="Coq kernel, no axioms (closed under the global context); h5py store/load fidelity measured; update function scripted "
+             "in the exhaustive stream.",
+        technique="Coq proof (loop invariant by induction) + exhaustive bounded correspondence against the real Runner",
+        design="7/C05"),
 }
 
 PENDING_REASON = "check not built yet in this session (planned, see DESIGN.md section 7); not claimed until it runs"
